@@ -81,7 +81,7 @@ class _DropImports(ast.NodeTransformer):
 
 def shadow_load(modname: str, overrides: Optional[Dict[str, object]] = None,
                 transform: Optional[Callable[[ast.Module], ast.Module]] = None,
-                name_suffix: str = "shadow") -> types.SimpleNamespace:
+                name_suffix: str = "shadow", rebind: Optional[Dict[str, object]] = None) -> types.SimpleNamespace:
     real = importlib.import_module(modname)
     tree = module_ast(modname)
     tree = _DropImports().visit(tree)
@@ -96,6 +96,27 @@ def shadow_load(modname: str, overrides: Optional[Dict[str, object]] = None,
     ast.fix_missing_locations(tree)
     ns = dict(real.__dict__)
     ns["__name__"] = modname  # dataclasses look the module up in sys.modules
+    if rebind:
+        # every name the real module imported from a repository module that HAS a shadow (a class, a function, a module-level object such as a gate) is bound to
+        # the shadow's object of the same name - also names a later edit of the text starts importing (`from ..circuits._gates import Dagger`): otherwise
+        # `isinstance(shadow_gate, <real Dagger>)` is silently False and a changed branch is never taken
+        for k, v in list(ns.items()):
+            if k.startswith("__"):
+                continue
+            if isinstance(v, types.ModuleType) and v.__name__ in rebind:
+                ns[k] = types.SimpleNamespace(**{a: b for a, b in vars(rebind[v.__name__]).items() if not a.startswith("__")})
+                continue
+            mod = getattr(v, "__module__", None)
+            nm = getattr(v, "__name__", None)
+            if mod in rebind and nm and hasattr(rebind[mod], nm):
+                ns[k] = getattr(rebind[mod], nm)
+                continue
+            for rmod, sh in rebind.items():       # module-level instances (built-in gates): found by identity in the real module
+                rm = importlib.import_module(rmod)
+                hit = next((a for a, b in vars(rm).items() if b is v and not a.startswith("__")), None) if not isinstance(v, (int, float, str, bool, type(None))) else None
+                if hit and hasattr(sh, hit):
+                    ns[k] = getattr(sh, hit)
+                    break
     if overrides:
         ns.update(overrides)
     code = compile(tree, path_of(modname), "exec")
